@@ -53,17 +53,26 @@ def template(ctx: Ctx, f: FuncInfo, e: Optional[ast.AST], _depth: int = 0) -> Op
             elif p:
                 out.append(("lit", p))
         return merge(out) if i == len(args) else None
-    if isinstance(e, ast.Call) and isinstance(e.func, ast.Attribute) and e.func.attr == "format" and not e.keywords and \
-            ctx.vals.const(f, e.func.value) is not None and isinstance(ctx.vals.const(f, e.func.value).value, str):
-        pieces = re.split(r"(\{\})", ctx.vals.const(f, e.func.value).value)
+    if isinstance(e, ast.Call) and isinstance(e.func, ast.Attribute) and e.func.attr == "format" and \
+            ctx.vals.const(f, e.func.value) is not None and isinstance(ctx.vals.const(f, e.func.value).value, str) and all(k.arg is not None for k in e.keywords):
+        # "{}-{}".format(a, b) / "{0}-{1}".format(a, b) / "{pool}_Task-{task_id}".format(pool=self, task_id=task_id)
+        pieces = re.split(r"(\{[A-Za-z_0-9]*\})", ctx.vals.const(f, e.func.value).value)
+        kws = {k.arg: k.value for k in e.keywords}
         out, i = [], 0
         for p in pieces:
-            if p == "{}":
-                if i >= len(e.args):
+            if re.fullmatch(r"\{[A-Za-z_0-9]*\}", p):
+                key = p[1:-1]
+                if key == "":
+                    arg = e.args[i] if i < len(e.args) else None
+                    i += 1
+                elif key.isdigit():
+                    arg = e.args[int(key)] if int(key) < len(e.args) else None
+                else:
+                    arg = kws.get(key)
+                if arg is None:
                     return None
-                sub = template(ctx, f, e.args[i], _depth + 1) if _is_str_local(ctx, f, e.args[i]) else None
-                out += sub if sub is not None else [("expr", ctx.vals.canon(f, e.args[i]))]
-                i += 1
+                sub = template(ctx, f, arg, _depth + 1) if _is_str_local(ctx, f, arg) else None
+                out += sub if sub is not None else [("expr", ctx.vals.canon(f, arg))]
             elif "{" in p or "}" in p:
                 return None
             elif p:
